@@ -155,6 +155,82 @@ def prog_B(name):
     raise AssertionError(name)
 
 
+
+# ----------------------------------------------------------------------------- size relations host / source
+
+def deep_source(rng, holes, depth, root=None):
+    """History of a well-formed source whose index space is inverted DEEPLY: `holes` placeholder nodes take the
+    indices 1..holes, a chain of `depth` nested nodes is built below the root, the placeholders are deleted and their
+    indices are reused for nodes at the BOTTOM of the chain (the first one below the innermost chain node, so that
+    insert_hugr meets a node all of whose `depth` proper ancestors below the root have higher indices; with
+    depth + 1 = number of non-root nodes this is the longest ancestor walk a source of that size admits).  Built while
+    running hugr-py, so that the node arguments are the indices the implementation really handed out (whatever its
+    reuse policy).  -> (root palette index, ops)"""
+    from hugr.hugr import Hugr
+    OPS, _, _ = palette()
+    root_k = rng.randrange(7) if root is None else root
+    h, ops = Hugr(OPS[root_k]), []
+
+    def do(c):
+        r = apply_bcmd(h, c)
+        ops.append(c)
+        return r
+
+    def add(parent):
+        return do(["AddNode", rng.randrange(6), parent, rng.choice([None, None, 0, 1, 3]), rng.randrange(4)])[1]
+
+    ph = [add(rng.choice([0, 0, None])) for _ in range(holes)]
+    chain = [0]
+    for _ in range(depth):
+        chain.append(add(chain[-1]))
+    rng.shuffle(ph)
+    for p in ph:
+        do(["DelNode", p])
+    low, par = [], chain[-1]
+    for _ in range(holes):
+        n = add(par)
+        low.append(n)
+        par = rng.choice([n, n, rng.choice(chain)])
+    for _ in range(rng.choice([0, 0, 1, 2])):                     # fresh leaves anywhere
+        add(rng.choice(chain + low))
+    live = [n.idx for n in h]
+    for _ in range(rng.choice([0, 1, 2, 3])):                     # links between any levels, repeated ports
+        do(["AddLink", [rng.choice(low + live), rng.choice([0, 0, 1])], [rng.choice(low + live), rng.choice([0, 0, 1])]])
+    if rng.random() < 0.5:
+        do(["AddOrder", rng.choice(live), rng.choice(low)])
+    return root_k, ops
+
+
+def small_host(rng, size, shape):
+    """History of a host with `size` live nodes.  shape: 'flat' (children of the root), 'chain' (nested),
+    'holes' (as flat, after `size` more nodes were added and deleted: a one-node host then has a non-empty free list
+    and a node table larger than the source's)."""
+    n1 = ["AddNode", 0, None, None, 0]
+    ops = []
+    if shape == "holes":
+        k = max(1, size)
+        ops += [["AddNode", 0, 0, None, 0] for _ in range(k)] + [["DelNode", i] for i in range(1, k + 1)]
+    for i in range(size - 1):
+        ops.append(["AddNode", rng.randrange(6), (i if shape == "chain" else rng.choice([0, None])), None, rng.randrange(4)])
+    if size >= 3 and shape != "holes" and rng.random() < 0.5:
+        ops.append(["AddLink", [1, 0], [2, 0]])
+    return ops
+
+
+def ancestor_walk(b):
+    """Longest list of not yet copied ancestors-or-self that a parents-first copy in index order meets (observation of
+    the source): 1 everywhere when every parent precedes its children."""
+    seen, best = set(), 0
+    for i in b["iter"]:
+        k, cur = 0, i
+        while cur is not None and cur not in seen and k <= len(b["iter"]):
+            seen.add(cur)
+            k += 1
+            cur = b["get"][cur]["parent"]
+        best = max(best, k)
+    return best
+
+
 A_PROGS = ["dfg", "main", "nested"]
 B_PROGS = ["dfg", "dfg_nonlocal", "cfg", "cond", "loop"]
 
@@ -185,7 +261,10 @@ class C08(fw.Prop):
             "non-local edge, Cfg, Conditional, TailLoop as source), insert_hugr under every live parent (and None) "
             "and the four builder wrappers, also called on builders of regions nested 1-3 deep (Dfg, TailLoop, Case, "
             "Cfg block) with wires taken from any enclosing level (inter-graph wires: state order link to the "
-            "ancestral sibling, once, unless already there); non-trivial = the source has a multi-linked port, an order link, a hole "
+            "ancestral sibling, once, unless already there); size relations: hosts of 1-6 live nodes (a fresh Hugr(), "
+            "flat, nested, with freed indices) x sources with deep index inversions (ancestor walks of up to 12 not yet "
+            "copied nodes, systematically around walk = host size and up to the longest a source of that size admits); "
+            "non-trivial = the source has a multi-linked port, an order link, a hole "
             "or a child below its parent in index order, or the call goes through a wrapper")
     trusted = ["object aliasing between source and target (shared op objects, metadata dicts) is outside the model; "
                "the returned mapping of a wrapper call is read by intercepting Hugr.insert_hugr on the instance",
@@ -198,6 +277,7 @@ class C08(fw.Prop):
     # ---- cases
     def corpus(self, ctx):
         n1 = ["AddNode", 0, None, None, 0]
+        u0 = ["AddNode", 0, 0, None, 0]
         return [
             # D20: child below its parent in index order
             {"kind": "hist", "A": {"root": 6, "ops": [n1]},
@@ -210,6 +290,22 @@ class C08(fw.Prop):
                                                   ["AddLink", [2, 0], [1, 1]]]}, "parent": None},
             {"kind": "prog", "A": "dfg", "B": "dfg", "via": "insert_nested"},
             {"kind": "prog", "A": "dfg", "B": "dfg", "via": "insert_hugr", "parent": None},
+            # seeded C08-h: the smallest host there is (a fresh Hugr(): one node) and a source with a DEEP index
+            # inversion, root(0) > outer(2) > mid(3) > inner(1): the ancestor walk from node 1 is longer than the host
+            {"kind": "hist", "A": {"root": 6, "ops": []},
+             "B": {"root": 5, "meta": 0, "ops": [u0, u0, ["AddNode", 0, 2, None, 2], ["DelNode", 1],
+                                                  ["AddNode", 0, 3, None, 3]]}, "parent": None},
+            # the same one level deeper into a two-node host, the walk as long as a source of that size admits
+            # (every non-root node on it), with a leaf, a link and an order link below the inversion
+            {"kind": "hist", "A": {"root": 6, "ops": [n1]},
+             "B": {"root": 0, "meta": 2, "ops": [u0, u0, ["AddNode", 5, 2, None, 0], ["AddNode", 0, 3, 1, 2],
+                                                  ["DelNode", 1], ["AddNode", 1, 4, 1, 0], ["AddLink", [1, 0], [4, 0]],
+                                                  ["AddLink", [1, 0], [4, 0]], ["AddOrder", 4, 1]]}, "parent": 1},
+            # a one-node host with freed indices (node table larger than the source's) and two reused indices in B
+            {"kind": "hist", "A": {"root": 6, "ops": [u0, u0, ["DelNode", 1], ["DelNode", 2]]},
+             "B": {"root": 5, "meta": 0, "ops": [u0, u0, u0, ["AddNode", 0, 3, None, 0], ["AddNode", 0, 4, None, 0],
+                                                  ["DelNode", 2], ["DelNode", 1], ["AddNode", 0, 5, None, 1],
+                                                  ["AddNode", 0, 1, None, 0]]}, "parent": None},
             # seeded C08-e: a wrapper called on the builder of a nested region with a wire from the ENCLOSING region:
             # the image of the root gets the wire, and the outer Input node a state order link to the container
             {"kind": "prog", "A": {"nest": ["dfg0"]}, "B": "dfg_nonlocal", "via": "insert_nested", "pick": [0]},
@@ -256,6 +352,26 @@ class C08(fw.Prop):
             bn = rng.choice(B_PROGS)
             pick = [rng.choice([0, 0, 1, 2, -1, -2, rng.randrange(12)]) for _ in range(2)]
             cases.append({"kind": "prog", "A": {"nest": nest}, "B": bn, "via": prog_B(bn)[1], "pick": pick})
+        # size relations: hosts of 1..5 live nodes (also with freed indices) x sources with an ancestor walk of
+        # 1..12 not yet copied nodes (deep index inversions); systematically around walk = host size, then random
+        deep = []
+        for a in ((1, 2, 3) if tier == "quick" else (1, 2, 3, 4, 5, 6)):
+            for d in (a, a + 1, a + 2):
+                deep.append((a, rng.choice(["flat", "chain", "holes"]), 1, d))
+        deep += [(1, "flat", 1, 11), (2, "holes", 2, 9)]           # far beyond any small constant
+        for _ in range(24 if tier == "quick" else 300):
+            a = rng.choice([1, 1, 1, 2, 2, 3, 4, 5])
+            deep.append((a, rng.choice(["flat", "chain", "holes"]), rng.choice([1, 1, 2, 3]),
+                         rng.choice([1, 2, a, a + 1, a + 1, a + 2, a + 3, rng.randint(3, 11)])))
+        for a, shape, holes, d in deep:
+            root_b, ops_b = deep_source(rng, holes, d)
+            ops_a = small_host(rng, a, shape)
+            parents = [None] if shape == "holes" or a == 1 else [None, rng.randrange(a)]
+            root_a, meta_b = rng.choice([6, 6, 0]), rng.randrange(4)
+            for p in parents:
+                cases.append({"kind": "hist", "A": {"root": root_a, "ops": ops_a},
+                              "B": {"root": root_b, "meta": meta_b, "ops": ops_b}, "parent": p})
+        ctx.stats["size_relation_pairs"] = len(deep)
         return cases
 
     # ---- implementation run
@@ -414,8 +530,15 @@ class C08(fw.Prop):
         d = {"pairs": len(cases), "hist": 0, "prog": 0, "via": {}, "exceptions": {}, "max_nodes_B": 0, "max_links_B": 0,
              "sources_with_holes": 0, "sources_child_below_parent": 0, "wrapper_calls_on_nested_builders": 0,
              "wrapper_wires": 0, "wrapper_wires_from_enclosing_regions": 0, "wrapper_calls_adding_an_order_link": 0,
-             "wrapper_calls_order_link_already_there": 0}
+             "wrapper_calls_order_link_already_there": 0, "max_ancestor_walk_B": 0, "pairs_ancestor_walk_ge_3": 0,
+             "pairs_host_single_node": 0, "pairs_host_smaller_than_source": 0, "pairs_ancestor_walk_longer_than_host": 0}
         for c, o in zip(cases, observations):
+            w, la, lb = ancestor_walk(o["obsB"]), o["obsA"]["len"], o["obsB"]["len"]
+            d["max_ancestor_walk_B"] = max(d["max_ancestor_walk_B"], w)
+            d["pairs_ancestor_walk_ge_3"] += w >= 3
+            d["pairs_host_single_node"] += la == 1
+            d["pairs_host_smaller_than_source"] += la < lb
+            d["pairs_ancestor_walk_longer_than_host"] += w > la
             if o.get("wires") is not None and o["res"] == "Ok":
                 ga, p = o["obsA"]["get"], o["parent"]
                 d["wrapper_calls_on_nested_builders"] += p != o["obsA"]["root"]
